@@ -140,6 +140,19 @@ def runCase (s : DSt) : String :=
     match nm[j]? with
     | some b => if (nm.take j).any (fun a => decide (b.e < a.s)) then some b else none
     | none => none)
+  -- round 11: replacements across a TOUCHING name: a match for name node r with a lower pattern index than an earlier
+  -- match of r, with a match for another name that starts exactly at r's end in between (the queued tag of r must
+  -- still be in the queue: the release test of TagsIter::next is strict)
+  let keyed := ms.filterMap (fun m => (nameOf cfg m).map (fun r => (r, m.pat)))
+  let touchRepl := ((List.range keyed.length).filter (fun j =>
+    match keyed[j]? with
+    | some (r, p) =>
+      (List.range j).any (fun i =>
+        match keyed[i]? with
+        | some (r0, p0) => r0 == r && decide (p < p0) &&
+            ((keyed.take j).drop (i + 1)).any (fun (y, _) => y != r && y.s == r.e && decide (r.s < r.e))
+        | none => false)
+    | none => false)).length
   let ordClause := match judgeOrderPair (real.filter (!·.isIgnored)) with
     | some (_, b) => if lateNames.contains b.name then "order-late-match" else "order"
     | none => "order"
@@ -158,7 +171,7 @@ def runCase (s : DSt) : String :=
   let lz := match lossy with
     | [] => "-"
     | m :: _ => m.replace " " "_"
-  s!"{s.id} corr={corr.replace " " "_"} vars={vars} judge={j} tags={real.length} matches={ms.length} skipped={skipped} lossy={lossy.length} lossymsg={lz} multi={multi} nonascii={na} cfgbad={if cfg.invalid then 1 else 0} rsff={rsFF} rscr={rsCR} rsvt={rsVT} rsuni={rsUni} ties={ties} perms={permStr} plin={plc 0} pleq={plc 1} plfront={plc 2} plbehind={plc 3} mrdocs={(ms.map (fun m => (m.caps.filter (fun c => some c.idx == cfg.docIdx && decide (c.sp.row < c.ep.row))).length)).foldl (· + ·) 0} withdocs={(real.filter (fun t => t.docs.isSome)).length} capi={(capiCheck s).replace " " "_"} names={nm.length} arrbad={arrbad} late={if noLate {} cfg s.src none ms (initSt s.src) then 0 else 1}"
+  s!"{s.id} corr={corr.replace " " "_"} vars={vars} judge={j} tags={real.length} matches={ms.length} skipped={skipped} lossy={lossy.length} lossymsg={lz} multi={multi} nonascii={na} cfgbad={if cfg.invalid then 1 else 0} rsff={rsFF} rscr={rsCR} rsvt={rsVT} rsuni={rsUni} ties={ties} perms={permStr} plin={plc 0} pleq={plc 1} plfront={plc 2} plbehind={plc 3} mrdocs={(ms.map (fun m => (m.caps.filter (fun c => some c.idx == cfg.docIdx && decide (c.sp.row < c.ep.row))).length)).foldl (· + ·) 0} withdocs={(real.filter (fun t => t.docs.isSome)).length} capi={(capiCheck s).replace " " "_"} names={nm.length} touchrepl={touchRepl} arrbad={arrbad} late={if noLate {} cfg s.src none ms (initSt s.src) then 0 else 1}"
 
 def step (s : DSt) (line : String) : IO DSt := do
   match line.splitOn " " with
